@@ -469,6 +469,11 @@ func TestC13(t *testing.T) {
 		Col.MarkExhaustive("all 256 pad bytes x both sides x 5 fixed shapes at N=5")
 	})
 	RunProps(t, rpC13())
+	n := 250
+	if Thorough() {
+		n = 2500
+	}
+	WithChecks(n, func() { RunProps(t, rpC13Msg(MyTypes())) })
 }
 
 func rpC13() []RProp { return []RProp{MkProp("C13", "c13", "random", genC13, oracleC13)} }
